@@ -410,3 +410,71 @@ func UNFOLD_DeepAbandon(h *rt.H) {
 	}
 	h.Assert("same-as-fresh", same)
 }
+
+type smInner struct{ X int8 }
+
+type smTarget struct {
+	P  int8
+	A  smInner
+	Q  *smInner
+	S  []int8
+	B  int8
+	G1 int16 `struct:"-"`
+	G2 int16 `struct:"-"`
+}
+
+// UNFOLD_StructMember (C14, C13): {"p":x, "<member>": <value of a kind that may not
+// fit>, "b":y}: the value for a struct, pointer-to-struct, slice or scalar member is
+// null, a scalar, a string, an array or an object. Either an event returns an error,
+// or the document is accepted and then every other member holds what the stream said
+// and nothing else was written (guard fields, no write outside the target).
+func UNFOLD_StructMember(h *rt.H) {
+	x, y := int8(h.U8("x")), int8(h.U8("y"))
+	member := []string{"a", "q", "s", "p"}[h.Choose("member", 0, 3)]
+	to := smTarget{P: x + 1, B: y + 1, G1: 771, G2: 772}
+	u, err := gotype.NewUnfolder(&to)
+	h.Assert("unfolder-created", err == nil)
+	v := structform.EnsureExtVisitor(u)
+	step := func(e error) {
+		if err == nil {
+			err = e
+		}
+	}
+	step(v.OnObjectStart(-1, structform.AnyType))
+	if member != "p" {
+		step(v.OnKey("p"))
+		step(v.OnInt8(x))
+	}
+	step(v.OnKey(member))
+	switch h.Choose("value", 0, 5) {
+	case 0:
+		step(v.OnNil())
+	case 1:
+		step(v.OnInt8(x))
+	case 2:
+		step(v.OnString("s"))
+	case 3:
+		step(v.OnArrayStart(1, structform.AnyType))
+		step(v.OnInt8(x))
+		step(v.OnArrayFinished())
+	case 4:
+		step(v.OnObjectStart(1, structform.AnyType))
+		step(v.OnKey("x"))
+		step(v.OnInt8(x))
+		step(v.OnObjectFinished())
+	case 5:
+		step(v.OnBool(true))
+	}
+	step(v.OnKey("b"))
+	step(v.OnInt8(y))
+	step(v.OnObjectFinished())
+	h.ObserveBool("refused", err != nil)
+	if err != nil {
+		return
+	}
+	h.Assert("b-assigned", to.B == y)
+	if member != "p" {
+		h.Assert("p-assigned", to.P == x)
+	}
+	h.Assert("nothing-else-written", to.G1 == 771 && to.G2 == 772)
+}
